@@ -69,35 +69,35 @@ CHECKS = {
     "C01": dict(
         category="proof", design_ref="DESIGN.md section 8 (C01)",
         text=("The functions every copy-on-write helper funnels through - mutate_attr, with_<attr>, reset_<attr>, reset, the generated __deepcopy__/__setattr__/__delattr__ and invalidate_attrs - are symbolically executed from the current source; every heap write in them is a frame obligation (target allocated during the call, or _inplace / do_not_copy class), and 'receiver unchanged' is a postcondition of every normal and exceptional exit, discharged by z3/cvc5 for all instances, attribute names and metadata. Helpers outside these functions rest on the bounded stand-in."),
-        note=('Trusted: pyvc encoding of Python, z3/cvc5; assumed contracts: copy.deepcopy on non-spec values (A-COPY), check_type as the relation proved under C15, prepare_attr_value / Attr.lookup_default_value as uninterpreted functions of their arguments, metadata shape A-META, acyclic invalidation maps A-ACYCLIC, pure callbacks A-CB. NOT under contract yet and covered only by the labelled bounded stand-in (bounded/spec.py: 4 corpus classes x 5 states x ~87 calls): update_/transform_ (mutate_value), collection element helpers, multi-attribute update/transform, the constructor, transitive invalidation chains.')),
+        note=('Trusted: pyvc encoding of Python, z3/cvc5; assumed: copy.deepcopy on non-spec values (A-COPY), check_type as the relation proved under C15, prepare_attr_value as an uninterpreted function of its arguments (its frame is proved in the sub-check of C01/C06), metadata shape A-META, acyclic invalidation maps A-ACYCLIC, pure callbacks A-CB, A-LEAF/A-RECV, A-SHARED for mutate_value. Attr.lookup_default_value, protect_via_deepcopy, the collection mutators and element helpers are discharged in sub-checks. Composition through the public API, the content of keyword merges and phase 1 of the constructor rest on labelled bounded stand-ins.')),
     "C02": dict(
         category="proof", design_ref="DESIGN.md section 8 (C02)",
         text=('__deepcopy__ is proved slot by slot for an arbitrary instance and metadata record: do_not_copy attributes carried by identity, every other slot related to the original by the copy relation (fresh or atomic), instance-bound methods dropped; mutate_attr/with_<attr>/reset_<attr> return that copy with one slot replaced. Discharged by z3/cvc5; deep reachability below one level rests on the assumed contract of copy.deepcopy (A-COPY).'),
-        note=('Trusted: pyvc encoding of Python, z3/cvc5; assumed contracts: copy.deepcopy on non-spec values (A-COPY), check_type as the relation proved under C15, prepare_attr_value / Attr.lookup_default_value as uninterpreted functions of their arguments, metadata shape A-META, acyclic invalidation maps A-ACYCLIC, pure callbacks A-CB. NOT under contract yet and covered only by the labelled bounded stand-in (bounded/spec.py: 4 corpus classes x 5 states x ~87 calls): update_/transform_ (mutate_value), collection element helpers, multi-attribute update/transform, the constructor, transitive invalidation chains.')),
+        note=('Trusted: pyvc encoding of Python, z3/cvc5; assumed: copy.deepcopy on non-spec values (A-COPY), check_type as the relation proved under C15, prepare_attr_value as an uninterpreted function of its arguments (its frame is proved in the sub-check of C01/C06), metadata shape A-META, acyclic invalidation maps A-ACYCLIC, pure callbacks A-CB, A-LEAF/A-RECV, A-SHARED for mutate_value. Attr.lookup_default_value, protect_via_deepcopy, the collection mutators and element helpers are discharged in sub-checks. Composition through the public API, the content of keyword merges and phase 1 of the constructor rest on labelled bounded stand-ins.')),
     "C03": dict(
         category="proof", design_ref="DESIGN.md section 8 (C03)",
         text=("mutate_attr, the generated __setattr__/__delattr__ and with_<attr> are symbolically executed from the current source: a managed slot is written only with a value for which check_type(value, annotation) returned True (the relation proved structural under C15), a non-conforming value raises TypeError with nothing stored; the slot-wise invariant 'absent or conforming' is a pre/postcondition. Discharged by z3/cvc5. Element helpers and the constructor rest on the bounded stand-in."),
-        note=('Trusted: pyvc encoding of Python, z3/cvc5; assumed contracts: copy.deepcopy on non-spec values (A-COPY), check_type as the relation proved under C15, prepare_attr_value / Attr.lookup_default_value as uninterpreted functions of their arguments, metadata shape A-META, acyclic invalidation maps A-ACYCLIC, pure callbacks A-CB. NOT under contract yet and covered only by the labelled bounded stand-in (bounded/spec.py: 4 corpus classes x 5 states x ~87 calls): update_/transform_ (mutate_value), collection element helpers, multi-attribute update/transform, the constructor, transitive invalidation chains.')),
+        note=('Trusted: pyvc encoding of Python, z3/cvc5; assumed: copy.deepcopy on non-spec values (A-COPY), check_type as the relation proved under C15, prepare_attr_value as an uninterpreted function of its arguments (its frame is proved in the sub-check of C01/C06), metadata shape A-META, acyclic invalidation maps A-ACYCLIC, pure callbacks A-CB, A-LEAF/A-RECV, A-SHARED for mutate_value. Attr.lookup_default_value, protect_via_deepcopy, the collection mutators and element helpers are discharged in sub-checks. Composition through the public API, the content of keyword merges and phase 1 of the constructor rest on labelled bounded stand-ins.')),
     "C04": dict(
         category="proof", design_ref="DESIGN.md section 8 (C04)",
         text=("Every declared exceptional exit of mutate_attr, __setattr__, __delattr__, with_<attr>, reset_<attr>, reset and __deepcopy__ carries 'receiver and every pre-existing object unchanged' as exceptional postcondition; exits after an in-place write are enumerated by the write-site frame obligations. Discharged by z3/cvc5. Multi-attribute update/transform, element helpers and the constructor rest on the bounded stand-in; one open known finding (multi-attribute _inplace update) is reported as KNOWN-FINDING."),
-        note=('Trusted: pyvc encoding of Python, z3/cvc5; assumed contracts: copy.deepcopy on non-spec values (A-COPY), check_type as the relation proved under C15, prepare_attr_value / Attr.lookup_default_value as uninterpreted functions of their arguments, metadata shape A-META, acyclic invalidation maps A-ACYCLIC, pure callbacks A-CB. NOT under contract yet and covered only by the labelled bounded stand-in (bounded/spec.py: 4 corpus classes x 5 states x ~87 calls): update_/transform_ (mutate_value), collection element helpers, multi-attribute update/transform, the constructor, transitive invalidation chains.')),
+        note=('Trusted: pyvc encoding of Python, z3/cvc5; assumed: copy.deepcopy on non-spec values (A-COPY), check_type as the relation proved under C15, prepare_attr_value as an uninterpreted function of its arguments (its frame is proved in the sub-check of C01/C06), metadata shape A-META, acyclic invalidation maps A-ACYCLIC, pure callbacks A-CB, A-LEAF/A-RECV, A-SHARED for mutate_value. Attr.lookup_default_value, protect_via_deepcopy, the collection mutators and element helpers are discharged in sub-checks. Composition through the public API, the content of keyword merges and phase 1 of the constructor rest on labelled bounded stand-ins.')),
     "C05": dict(
         category="proof", design_ref="DESIGN.md section 8 (C05)",
         text=('with_<attr>, obj.a = v, reset_<attr>, reset and del are proved to compute exactly the documented state: the named slot holds the prepared value (or the class default), every other slot is carried over (identically in place, by the copy relation otherwise), _if=False returns the receiver untouched, and obj.a = v is literally the _inplace contract of with_a. Discharged by z3/cvc5. update_/transform_/update/transform rest on the bounded stand-in; one open known finding (with_a(MISSING)) is reported as KNOWN-FINDING.'),
-        note=('Trusted: pyvc encoding of Python, z3/cvc5; assumed contracts: copy.deepcopy on non-spec values (A-COPY), check_type as the relation proved under C15, prepare_attr_value / Attr.lookup_default_value as uninterpreted functions of their arguments, metadata shape A-META, acyclic invalidation maps A-ACYCLIC, pure callbacks A-CB. NOT under contract yet and covered only by the labelled bounded stand-in (bounded/spec.py: 4 corpus classes x 5 states x ~87 calls): update_/transform_ (mutate_value), collection element helpers, multi-attribute update/transform, the constructor, transitive invalidation chains.')),
+        note=('Trusted: pyvc encoding of Python, z3/cvc5; assumed: copy.deepcopy on non-spec values (A-COPY), check_type as the relation proved under C15, prepare_attr_value as an uninterpreted function of its arguments (its frame is proved in the sub-check of C01/C06), metadata shape A-META, acyclic invalidation maps A-ACYCLIC, pure callbacks A-CB, A-LEAF/A-RECV, A-SHARED for mutate_value. Attr.lookup_default_value, protect_via_deepcopy, the collection mutators and element helpers are discharged in sub-checks. Composition through the public API, the content of keyword merges and phase 1 of the constructor rest on labelled bounded stand-ins.')),
     "C07": dict(
         category="proof", design_ref="DESIGN.md section 8 (C07)",
         text=('frozen is a symbolic flag of the metadata record in the proofs of mutate_attr, __setattr__, __delattr__, with_<attr>, reset_<attr>, reset: an in-place mutation of a frozen instance outside initialisation raises FrozenInstanceError with the receiver unchanged; copy-on-write returns a distinct fresh instance with the same contract as the unfrozen class. Discharged by z3/cvc5; one open known finding (reset/update on the private copy of a frozen instance raise) is reported as KNOWN-FINDING.'),
-        note=('Trusted: pyvc encoding of Python, z3/cvc5; assumed contracts: copy.deepcopy on non-spec values (A-COPY), check_type as the relation proved under C15, prepare_attr_value / Attr.lookup_default_value as uninterpreted functions of their arguments, metadata shape A-META, acyclic invalidation maps A-ACYCLIC, pure callbacks A-CB. NOT under contract yet and covered only by the labelled bounded stand-in (bounded/spec.py: 4 corpus classes x 5 states x ~87 calls): update_/transform_ (mutate_value), collection element helpers, multi-attribute update/transform, the constructor, transitive invalidation chains.')),
+        note=('Trusted: pyvc encoding of Python, z3/cvc5; assumed: copy.deepcopy on non-spec values (A-COPY), check_type as the relation proved under C15, prepare_attr_value as an uninterpreted function of its arguments (its frame is proved in the sub-check of C01/C06), metadata shape A-META, acyclic invalidation maps A-ACYCLIC, pure callbacks A-CB, A-LEAF/A-RECV, A-SHARED for mutate_value. Attr.lookup_default_value, protect_via_deepcopy, the collection mutators and element helpers are discharged in sub-checks. Composition through the public API, the content of keyword merges and phase 1 of the constructor rest on labelled bounded stand-ins.')),
     "C08": dict(
         category="proof", design_ref="DESIGN.md section 8 (C08)",
         text=("__delattr__, reset_<attr>, reset are proved to install exactly what Attr.lookup_default_value(type(self)) yields - the same function the constructor uses - and to leave the slot missing when there is none; the stored value is the lookup's result (mutate-safe by its assumed contract), never the class attribute itself. Discharged by z3/cvc5. The constructor's own copying of defaults/arguments and peers rest on the bounded stand-in."),
-        note=('Trusted: pyvc encoding of Python, z3/cvc5; assumed contracts: copy.deepcopy on non-spec values (A-COPY), check_type as the relation proved under C15, prepare_attr_value / Attr.lookup_default_value as uninterpreted functions of their arguments, metadata shape A-META, acyclic invalidation maps A-ACYCLIC, pure callbacks A-CB. NOT under contract yet and covered only by the labelled bounded stand-in (bounded/spec.py: 4 corpus classes x 5 states x ~87 calls): update_/transform_ (mutate_value), collection element helpers, multi-attribute update/transform, the constructor, transitive invalidation chains.')),
+        note=('Trusted: pyvc encoding of Python, z3/cvc5; assumed: copy.deepcopy on non-spec values (A-COPY), check_type as the relation proved under C15, prepare_attr_value as an uninterpreted function of its arguments (its frame is proved in the sub-check of C01/C06), metadata shape A-META, acyclic invalidation maps A-ACYCLIC, pure callbacks A-CB, A-LEAF/A-RECV, A-SHARED for mutate_value. Attr.lookup_default_value, protect_via_deepcopy, the collection mutators and element helpers are discharged in sub-checks. Composition through the public API, the content of keyword merges and phase 1 of the constructor rest on labelled bounded stand-ins.')),
     "C11": dict(
         category="proof", design_ref="DESIGN.md section 8 (C11)",
-        text=("invalidate_attrs is proved (loop invariants over the dependency worklist) to clear every direct dependant of the changed attribute and of '*', to touch nothing outside the transitive dependants, and only ever to clear; mutate_attr/__setattr__/__delattr__/with_<attr>/reset_<attr> are proved to reach it on every successful route and to change nothing on failure. Discharged by z3/cvc5. Chains longer than one step and spec_property caches (C12) compose through the bounded stand-in."),
-        note=('Trusted: pyvc encoding of Python, z3/cvc5; assumed contracts: copy.deepcopy on non-spec values (A-COPY), check_type as the relation proved under C15, prepare_attr_value / Attr.lookup_default_value as uninterpreted functions of their arguments, metadata shape A-META, acyclic invalidation maps A-ACYCLIC, pure callbacks A-CB. NOT under contract yet and covered only by the labelled bounded stand-in (bounded/spec.py: 4 corpus classes x 5 states x ~87 calls): update_/transform_ (mutate_value), collection element helpers, multi-attribute update/transform, the constructor, transitive invalidation chains.')),
+        text=("invalidate_attrs is proved (loop invariants over the dependency worklist; mutual recursion with the generated __delattr__ through their contracts) to clear every TRANSITIVE dependant of the changed attribute and of '*' (reach = transitive closure of the invalidation map), to touch nothing outside that closure, and only ever to clear; mutate_attr/__setattr__/__delattr__/with_<attr>/reset_<attr> are proved to reach it on every successful route and to change nothing on failure. Discharged by z3/cvc5. Termination needs an acyclic dependency graph (A-ACYCLIC, not proved); spec_property caches (C12) compose through the bounded stand-in. One genuine defect found by this contract was repaired (chains through a link holding no value)."),
+        note=('Trusted: pyvc encoding of Python, z3/cvc5; assumed: copy.deepcopy on non-spec values (A-COPY), check_type as the relation proved under C15, prepare_attr_value as an uninterpreted function of its arguments (its frame is proved in the sub-check of C01/C06), metadata shape A-META, acyclic invalidation maps A-ACYCLIC, pure callbacks A-CB, A-LEAF/A-RECV, A-SHARED for mutate_value. Attr.lookup_default_value, protect_via_deepcopy, the collection mutators and element helpers are discharged in sub-checks. Composition through the public API, the content of keyword merges and phase 1 of the constructor rest on labelled bounded stand-ins.')),
     "C13": dict(
         category="proof", design_ref="DESIGN.md section 8 (C13)",
         text=("Every KeyedList primitive and every non-generator MutableSequence/Sequence mixin it inherits is symbolically "
